@@ -63,7 +63,7 @@ CLAIMED = {
  'C08': ('exploration', 'property-based testing on a virtual clock with threshold-aligned arrivals',
          'Generated search: all durations are small multiples of one time unit so arrivals land on, just before and just after min/max/grace/read-timeout thresholds; every publish instant is checked against the policy and the completion reason against the ground truth.',
          'virtual time advances only in simulated socket calls; zero read timeout spins in max-round/200 steps.', 'DESIGN.md 3/C08'),
- 'C10': ('exploration', 'property-based testing: hop table read through public accessors after every simulated round',
+ 'C10': ('exploration', 'property-based testing: hop table read through public accessors after every simulated round (with and without socket faults) and after every round of generated synthetic histories',
          'Generated search: after every published round hops()/target_hop()/is_target()/is_in_round()/round_count() for every flow are compared with the TTL run implied by the ground truth; true distance asserted on stable single paths.',
          'SimSocket replaces the platform socket layer.', 'DESIGN.md 3/C10'),
 }
